@@ -420,3 +420,8 @@ Definition g_expand_modes (ms : list obj) : res (list obj) :=
   let* al := mapM g_mode_aliases ms in
   Ok (map (jdel g_mode_kon) ms ++ concat al).
 
+(* gnpy/tools/convert_legacy_yang.py: _convert_api_section, _convert_api_core_sections, _convert_api_extra_items (the gnpy-api:api container is not modelled: what is tied is that the caller's payload is copied before it is converted, and which sections are converted) *)
+Definition g_api_payload_copied : bool := true.
+Definition g_api_item_copied : bool := true.
+Definition g_api_core_keys : list string := ["gnpy-network-topology:topology"%string; "gnpy-path-computation:services"%string; "gnpy-eqpt-config:equipment"%string; "gnpy-sim-params:sim-params"%string; "gnpy-edfa-config:edfa-config"%string; "gnpy-path-computation:responses"%string].
+
